@@ -28,7 +28,7 @@ PROPS = {
         "assumptions": ["Coh for the matrix indexed (C01)"],
     },
     "C05": {
-        "module": "Matreex.Props.C05", "harness": "C05", "extra_modules": ["Matreex.Props.SpecLaws"],
+        "module": "Matreex.Props.C05", "harness": "C05", "extra_modules": ["Matreex.Props.SpecLaws", "Matreex.Lemmas.BridgeT17"],
         "technique": "Lean 4 proof of the cycle-following in-place permutation for every injective self-map (two loop invariants), instantiated with the regenerated index functions (T2); induction over compositions; correspondence on all shapes up to 12x12",
         "trusted": ["ptr::swap modelled as UB outside the buffer, visited.get_unchecked_mut as UB outside the bitmap (Model/Mem.lean, Model/Transpose.lean)",
                     "Matrix::transpose is regenerated from src/lib.rs (T5) and proved equal to the model function for every matrix, faults included (transpose_is_the_source); the only thing T5 adds to the Rust text is the fuel of the inner loop; switch_order / set_order (three-line wrappers) are hand-modelled and tied by correspondence",
@@ -63,7 +63,7 @@ PROPS["C09"] = {
 }
 
 PROPS["C12"] = {
-    "module": "Matreex.Props.C12", "harness": "C12", "extra_modules": ["Matreex.Props.C12Source"],
+    "module": "Matreex.Props.C12", "harness": "C12", "extra_modules": ["Matreex.Props.C12Source", "Matreex.Lemmas.BridgeT17"],
     "technique": "Lean 4 theorems about the regenerated conformability predicate and the same-order/cross-order data paths (cross-order get_unchecked in bounds via the remap lemma) + T1 tables of the named methods and operator delegation + correspondence with symbolic token terms",
     "trusted": ["the guard and the three generic elementwise operations are regenerated from src/arithmetic.rs (T9) and proved equal to the model functions (elementwise_is_the_source: no hypothesis for the two non-assign variants, coherent operands for the assign variant); the named methods and operators delegate to them (T1 tables)",
                 "iter().zip / enumerate / collect modelled as positionwise maps (T9 maps this iterator vocabulary by name); get_unchecked as UB outside the vector",
@@ -97,7 +97,7 @@ PROPS["C15"] = {
 }
 
 PROPS["C19"] = {
-    "module": "Matreex.Props.C19", "harness": "C19", "extra_modules": ["Matreex.Lemmas.BridgeT13"],
+    "module": "Matreex.Props.C19", "harness": "C19", "extra_modules": ["Matreex.Lemmas.BridgeT13", "Matreex.Lemmas.BridgeT17"],
     "technique": "Lean 4 theorems by induction over the row lists (uniform => rows in order; any deviating row => LengthInconsistent / panic; with_initializer stores f(r,c) at (r,c)) using the regenerated size decision (T2) + macro-arm table (T1) + exhaustive correspondence over ragged inputs with destructor tokens",
     "trusted": ["Vec::extend / extend_from_slice / collect / vec! modelled as list append (vec![v; n]: n-1 clones then the original), FromIterator rows as lists",
                 "translate/t1.py macros: regex extraction of each macro arm's pattern and expansion",
@@ -114,7 +114,7 @@ PROPS["C03"] = {
     "assumptions": ["Coh (C01)"],
 }
 PROPS["C06"] = {
-    "module": "Matreex.Props.C06", "harness": "C06", "extra_modules": ["Matreex.Lemmas.BridgeT12"],
+    "module": "Matreex.Props.C06", "harness": "C06", "extra_modules": ["Matreex.Lemmas.BridgeT12", "Matreex.Lemmas.BridgeT17"],
     "technique": "Lean 4 theorems for skip/step_by/take views (exact items and lengths, step_by(0) unreachable, IndexOutOfBounds exactly for invalid n) and agreement of the view positions with the positions the mutable machines of C03 hand out; correspondence over all families, shapes with a zero dimension, consumption patterns",
     "trusted": ["slice::Iter / IterMut with skip, step_by, take and their DoubleEnded/ExactSize behaviour modelled as list functions (Model/Iter.lean)",
                 "the mutable outer families are the C03 machines"],
